@@ -120,7 +120,7 @@ Proof.
     cbn. destruct (_ && _); cbn; auto. destruct (m_conf m); cbn; auto. rewrite conns_upd_msg. reflexivity.
   - unfold queue_ackmsg. destruct (get_queue s qn); auto. destruct (get_msg s u); auto. destruct (negb _); auto.
     cbn. destruct (_ && _); auto.
-  - unfold queue_requeue. destruct (get_queue s qn); auto. destruct (negb _); auto. cbn. rewrite conns_upd_msg. reflexivity.
+  - unfold queue_requeue. destruct (get_queue s qn); auto. destruct (negb _); auto. cbn. rewrite conns_upd_msg. apply store_writeback_frame.
   - unfold queue_remove_consumer. destruct (get_queue s qn); auto. cbn.
     repeat match goal with |- context [if ?b then _ else _] => destruct b end; reflexivity.
 Qed.
